@@ -133,6 +133,11 @@ func (w *World) producer(m *Msg, inc *simrt.Inc) func() {
 		defer func() { w.prodDone++ }()
 		q := w.q
 		ctx := context.Background()
+		// The call order and the moments at which metadata fields are filled
+		// in mirror the SMTP endpoint and the message pipeline: the
+		// original-recipient map grows while recipients are added, and the
+		// TLS-Required override is only known once the header was parsed,
+		// i.e. after Start/AddRcpt and before Body.
 		meta := &module.MsgMetadata{
 			ID:           m.ID,
 			OriginalFrom: m.From,
@@ -143,13 +148,6 @@ func (w *World) producer(m *Msg, inc *simrt.Inc) func() {
 				AuthUser:     "user-" + m.ID,
 				AuthPassword: passwordMarker,
 			},
-			TLSRequireOverride: m.TLSOverride,
-		}
-		if m.OrigRcpts != nil {
-			meta.OriginalRcpts = map[string]string{}
-			for k, v := range m.OrigRcpts {
-				meta.OriginalRcpts[k] = v
-			}
 		}
 		d, err := q.Start(ctx, meta, m.From)
 		if err != nil {
@@ -157,12 +155,19 @@ func (w *World) producer(m *Msg, inc *simrt.Inc) func() {
 			return
 		}
 		for _, r := range m.Rcpts {
+			if o := m.OrigRcpts[r]; o != "" {
+				if meta.OriginalRcpts == nil {
+					meta.OriginalRcpts = map[string]string{}
+				}
+				meta.OriginalRcpts[r] = o
+			}
 			if err := d.AddRcpt(ctx, r, smtp.RcptOptions{}); err != nil {
 				m.bodyErr = "rcpt: " + err.Error()
 				d.Abort(ctx)
 				return
 			}
 		}
+		meta.TLSRequireOverride = m.TLSOverride
 		simrt.Point("prod:"+m.ID, "body")
 		if err := d.Body(ctx, m.Hdr, buffer.MemoryBuffer{Slice: m.Body}); err != nil {
 			m.bodyErr = "body: " + err.Error()
@@ -249,6 +254,9 @@ func Run(s *simrt.Sim, a *harness.Args, r *harness.Result) {
 
 	// schedule knobs
 	switch a.Prop {
+	case "C02":
+		s.PreemptBudget = []int{0, 1, 2, 3}[s.T.Choose("knob", 4)]
+		s.PreemptNum, s.PreemptDen = 1, []int{2, 4, 8}[s.T.Choose("knob", 3)]
 	case "C12":
 		s.PreemptBudget = []int{0, 1, 2, 3, -1}[s.T.Choose("knob", 5)]
 		s.PreemptNum, s.PreemptDen = 1, []int{2, 4, 8, 16}[s.T.Choose("knob", 4)]
